@@ -1284,9 +1284,104 @@ fn c05_seq_enum(tier: Tier, shard: u64, nshards: u64, f: &mut dyn FnMut(&[u64]) 
     }
 }
 
+/// exhaustive over the body length: params = [first length of a block of 64 lengths, version, status index]
+fn c05_lengths(input: &Input, obs: &mut Obs) -> Result<(), Fail> {
+    let p = input.params();
+    let v = p[1] as u8;
+    let code = CODES[p[2] as usize];
+    let mut n = 0u64;
+    for len in p[0]..p[0] + 64 {
+        if len > 200_000 {
+            // the i32 edge blocks exercise set_content_length only
+            break;
+        }
+        let body = filler(3, 0, len as usize);
+        // a second, bodiless response behind it shows whether the first is self-delimiting
+        let items = vec![(v, code, vec![Call::SetBody(body)]), (1 - v, 204u16, vec![])];
+        c05_check(&items, &[200, 3])?;
+        n += 1;
+    }
+    // set_content_length with the same numbers (exact bytes only)
+    for len in p[0]..p[0] + 64 {
+        for signed in [len as i64, -(len as i64)] {
+            if signed < i32::MIN as i64 || signed > i32::MAX as i64 {
+                continue;
+            }
+            c05_check(&[(v, code, vec![Call::SetContentLength(Some(signed as i32))])], &[])?;
+            n += 1;
+        }
+    }
+    obs.extra_evals = n - 1;
+    obs.extra_nontrivial = n;
+    if obs.want_render {
+        obs.render = format!("version={} status={} set_body with every length {}..{} followed by a 204; set_content_length(+-n)", v, code, p[0], p[0] + 63);
+    }
+    Ok(())
+}
+
+fn c05_lengths_enum(tier: Tier, shard: u64, nshards: u64, f: &mut dyn FnMut(&[u64]) -> bool) {
+    let mut c = 0u64;
+    let max = if tier == Tier::Quick { 66_048 } else { 132_096 };
+    let mut start = 0u64;
+    while start < max {
+        c += 1;
+        if c % nshards == shard {
+            // version and status vary with the block; every length is visited once
+            if !f(&[start, c % 2, (c / 2) % 11]) {
+                return;
+            }
+        }
+        start += 64;
+    }
+    // i32 edge values of an explicit Content-Length
+    if shard == 0 {
+        for e in [i32::MAX as u64 - 63, 999_999_936, 99_999_936, 9_999_936] {
+            if !f(&[e, 1, 1]) {
+                return;
+            }
+        }
+    }
+}
+
+/// exhaustive Allow lists: every list of length <= 4 over the 3 methods, built by set_allow or by pushes
+fn c05_allow(_input: &Input, obs: &mut Obs) -> Result<(), Fail> {
+    let mut n = 0u64;
+    for len in 0..=4u32 {
+        for code in 0..3u64.pow(len) {
+            let mut list = Vec::new();
+            let mut x = code;
+            for _ in 0..len {
+                list.push((x % 3) as u8);
+                x /= 3;
+            }
+            for split in 0..=list.len() {
+                // set_allow(first part) then allow_method for the rest
+                let mut calls = vec![Call::SetAllow(list[..split].to_vec())];
+                for m in &list[split..] {
+                    calls.push(Call::AllowMethod(*m));
+                }
+                c05_check(&[(1, 405, calls), (0, 200, vec![])], &[0, 255, 7])?;
+                n += 1;
+            }
+        }
+    }
+    obs.extra_evals = n - 1;
+    obs.extra_nontrivial = n;
+    obs.render = "every Allow list of length <= 4 over {GET, PUT, PATCH}, every split between set_allow and allow_method".into();
+    Ok(())
+}
+
+fn c05_once_enum(_tier: Tier, shard: u64, _nshards: u64, f: &mut dyn FnMut(&[u64]) -> bool) {
+    if shard == 0 {
+        f(&[0]);
+    }
+}
+
 fn c05_plan(tier: Tier) -> Vec<Job> {
     let q = tier == Tier::Quick;
     vec![
+        Job { sub: "lengths", kind: JobKind::Enum { f: c05_lengths_enum, bound: if q { "set_body with a body of every length 0..66047 (and set_content_length(+-n) for the same n, plus i32 edge blocks), each followed by a second response" } else { "same, every length 0..132095" } }, smallbuf: false },
+        Job { sub: "allow", kind: JobKind::Enum { f: c05_once_enum, bound: "every Allow list of length <= 4 over the 3 methods x every split between set_allow and allow_method" }, smallbuf: false },
         Job { sub: "build", kind: JobKind::Pbt { cases: if q { 200_000 } else { 4_000_000 }, max_len: 400 }, smallbuf: false },
         Job { sub: "seq", kind: JobKind::Enum { f: c05_seq_enum, bound: if q { "2 versions x 11 statuses x all builder-call kind sequences of length <= 3 over 7 kinds" } else { "2 versions x 11 statuses x all builder-call kind sequences of length <= 5 over 7 kinds" } }, smallbuf: false },
     ]
@@ -1295,7 +1390,7 @@ fn c05_plan(tier: Tier) -> Vec<Job> {
 pub fn c05() -> PropDef {
     PropDef {
         id: "C05",
-        subs: vec![("build", c05_build), ("seq", c05_seq)],
+        subs: vec![("build", c05_build), ("seq", c05_seq), ("lengths", c05_lengths), ("allow", c05_allow)],
         plan: c05_plan,
         rule: "case = 1..6 responses, each (version, status, <=12 builder calls with generated arguments; bodies 0..64 KiB incl. CRLFCRLF / status-line look-alikes) + a chunking/interrupting sink pattern; oracle = byte-exact serialisation model, the length rule over all 11 statuses, round-trip of the concatenation through the independent response reader, sink-independence; non-trivial = >=2 builder calls, a body containing CRLFCRLF or status-like text, or >=2 concatenated responses",
         assumptions: vec![
